@@ -22,6 +22,13 @@ var verifTags = []string{"repo:t1", "repo:t2"}
 // tag has been stored (or the backend already holds it), and executing the
 // stored tasks with a healthy backend makes the backend hold that digest.
 func verifHistory(writeThrough bool) {
+	// The property quantifies over histories and fault sequences, not over
+	// schedules: if the code under check spawns goroutines inside a put (e.g. a
+	// fanned-out dependency check) they run in a fixed order here; schedules of
+	// the dependency check are explored by VerifPutTagChecksEveryDependency.
+	verif.Option("sched_fixed", 1)
+	verif.Option("max_preempt", 0)
+	verif.Option("max_threads", 64)
 	n := verifNewNode(writeThrough)
 	n.backend.faults = true
 	n.wb.faults = true
